@@ -11,7 +11,7 @@ from fractions import Fraction
 import numpy as np
 import z3
 
-SQRT_SCALE = 10 ** 40  # concrete irrational roots are replaced by a rational within 1e-40
+SQRT_SCALE = 10 ** 20  # concrete irrational roots are replaced by a rational within 1e-20 (smaller numerals: faster nlsat)
 
 
 class PathAbort(BaseException):
@@ -46,6 +46,7 @@ STATS = {"sat": 0, "unsat": 0, "unknown": 0, "solver_time": 0.0, "cache_hits": 0
 QUERY_TIMEOUT_MS = 20000
 import os as _os
 DEBUG = bool(_os.environ.get("SYMX_DEBUG"))
+USE_CVC5 = bool(_os.environ.get("SYMX_CVC5"))   # cvc5 1.4 fallback (its time limit is not reliable inside nl-cov; off by default)
 
 
 def _vars_of(e, _cache={}):
@@ -68,6 +69,22 @@ def _vars_of(e, _cache={}):
     if len(_cache) > 200000:
         _cache.clear()
     _cache[key] = (e, r)  # keep e alive: z3 AST ids are recycled after garbage collection
+    return r
+
+
+def _guarded_check(solver, timeout_ms):
+    """solver.check() with a watchdog: z3's soft timeout is not always honoured inside nlsat"""
+    import threading
+
+    timer = threading.Timer(timeout_ms / 1000.0 + 2.0, solver.ctx.interrupt)
+    timer.daemon = True
+    timer.start()
+    try:
+        r = str(solver.check())
+    except z3.Z3Exception:
+        r = "unknown"
+    finally:
+        timer.cancel()
     return r
 
 
@@ -206,11 +223,13 @@ class Ctx:
         s.add(*chosen)
         s.add(*extra)
         t = time.time()
-        r = str(s.check())
+        r = _guarded_check(s, int(timeout_ms or self.timeout_ms))
         dt = time.time() - t
+        if DEBUG and dt > 2:
+            print(f"SLOWQUERY {dt:.1f}s {r} nchosen={len(chosen)}", str(extra[0])[:300] if extra else "")
         STATS["solver_time"] += dt
         self.nqueries += 1
-        if r == "unknown":
+        if r == "unknown" and USE_CVC5:
             r2 = _cvc5_check(s.to_smt2().replace("(check-sat)", ""), int(timeout_ms or self.timeout_ms))
             STATS["cvc5_" + r2] += 1
             STATS["solver_time"] += time.time() - t - dt
@@ -234,7 +253,7 @@ class Ctx:
             s = z3.Solver()
             s.set("timeout", int(self.timeout_ms))
             s.add(*[c for c, _ in self.last_rest])
-            if str(s.check()) == "sat":
+            if _guarded_check(s, int(self.timeout_ms)) == "sat":
                 self._read_model(s.model(), m, keep=True)
         return m
 
@@ -251,7 +270,7 @@ class Ctx:
         s.set("timeout", int(self.timeout_ms))
         s.add(*[c for c, _ in self.cons])
         m = {}
-        if str(s.check()) == "sat":
+        if _guarded_check(s, int(self.timeout_ms)) == "sat":
             self._read_model(s.model(), m)
         return m
 
@@ -259,7 +278,7 @@ class Ctx:
         s = z3.Solver()
         s.set("timeout", int(self.timeout_ms))
         s.add(*[c for c, _ in self.cons])
-        return str(s.check())
+        return _guarded_check(s, int(self.timeout_ms))
 
     # ---- branching ---------------------------------------------------------------------------
     def branch(self, cond):
